@@ -58,7 +58,7 @@ def main():
         res["ran"].append("VERIF_REPO=<scratch worktree with the change> bin/check %s --tier quick -> rc=%d" % (c, rc))
     res["detected_by"] = [c for c in checks if det[c]["rc"] == 1]
     res["checks"] = det
-    name = "%s-%s" % (pid, i)
+    name = "%s-%s" % (pid, os.environ.get("SEED_NAME", i))
     out_dir = os.path.join(V, "seeded", name)
     os.makedirs(out_dir, exist_ok=True)
     shutil.copy(patch, os.path.join(out_dir, "patch.diff"))
